@@ -22,6 +22,6 @@ MANIFEST_ENTRY = dict(
     category='other',
     engine='bounded',
     technique='sidecar contracts on the real functions: wiring / closed-form obligations from the AST discharged by z3 and the ring normaliser where the functions are within reach; bounded run-time contracts with independent oracles for the rest (never counted as proved)',
-    text='Discharged from the real source on every run (all values, stated small shapes): ll_per_bin formula and auto-fold on all paths, ll, ll_multinom, optimal_sfs_scaling, linear and Anscombe residuals (formula, sign, mask rule for every cut-off incl. 0); lemma: the optimal scaling maximises the Poisson likelihood (log axioms listed). Bounded run-time contracts (never counted as proved): Poisson / multinomial likelihoods, optimal scaling, auto-folding and residuals against 40-digit mpmath sums over jointly unmasked entries.',
+    text='Discharged from the real source on every run (all values, stated small shapes): ll_per_bin formula and auto-fold on all paths, ll, ll_multinom, optimal_sfs_scaling, optimally_scaled_sfs, linear and Anscombe residuals (formula, sign, mask rule for every cut-off incl. 0); lemma: the optimal scaling maximises the Poisson likelihood (log axioms listed). Bounded run-time contracts (never counted as proved): Poisson / multinomial likelihoods, optimal scaling, auto-folding and residuals against 40-digit mpmath sums over jointly unmasked entries.',
     note='bounded: see coverage.bounded.drivers[].bound in the evidence file for the exact domain of every driver',
 )
